@@ -91,7 +91,8 @@ def sensitivity(argv):
         for sid in sorted(os.listdir(sd)):
             mp = os.path.join(sd, sid, "meta.json")
             if os.path.exists(mp):
-                items.append(("seeded/" + sid, os.path.join(sd, sid, "patch.diff"), {"property": json.load(open(mp))["breaks_property"]}))
+                mj = json.load(open(mp))
+                items.append(("seeded/" + sid, os.path.join(sd, sid, "patch.diff"), {"property": mj["breaks_property"], "expect_green": mj.get("expected_by_selftest") == "not-detected"}))
     for name, path, meta in items:
         if a.mutant and a.mutant not in name:
             continue
@@ -101,7 +102,8 @@ def sensitivity(argv):
         for prop in props:
             if a.only and prop != a.only:
                 continue
-            failed += run_one(a, name, path, prop, neutral, results)
+            # (a seeded change recorded as outside what its check asserts is expected to stay green)
+            failed += run_one(a, name, path, prop, neutral or bool(meta.get("expect_green")), results)
     os.makedirs(common.OUT_DIR, exist_ok=True)
     with open(os.path.join(common.OUT_DIR, "selftest-sensitivity.json"), "w") as f:
         json.dump(results, f, indent=1)
